@@ -4,6 +4,7 @@ use std::ffi::c_void;
 pub mod lanes;
 pub mod vecops;
 pub mod slices;
+pub mod reducers;
 
 pub struct SplitMix64(pub u64);
 impl SplitMix64 {
